@@ -111,9 +111,11 @@ func ruleSaveNameIsHash(c *eng.Ctx) {
 		c.Touch(s.Fn)
 		fname := c.P.FnName(s.Fn)
 		key := fname + "→be.Save:name"
-		if fname == pkgRepo+".UpgradeRepo" {
+		if why, isEx := classifiedSite(c, eng.Root(s.Fn), map[string]string{
+			pkgRepo + ".UpgradeRepo": "re-upload of the raw old config file (config has the constant zero ID by format definition)",
+		}); isEx {
 			// frozen exception: restores the old raw config under the fixed config name
-			c.Ok(rule, key, s.Call.Pos(), "exempt: re-upload of the raw old config file (config has the constant zero ID by format definition)")
+			c.Ok(rule, key, s.Call.Pos(), "exempt: %s", why)
 			continue
 		}
 		names := structFieldStores(eng.Arg(s.Call, 1), "Name")
